@@ -75,7 +75,7 @@ func (c17IsDir) Error() string { return "is a directory" }
 
 var c17Dirs = [][]string{{}, {"w"}, {"w", "r"}, {"w", "r", "s"}, {"w", "q"}}
 
-var c17Roots = []string{"/w/r", "/w/r/", "r", "./r", ".", "r/s", "/w", "/w/r/../q", "/", "../w/r"}
+var c17Roots = []string{"/w/r", "/w/r/", "r", "./r", ".", "r/s", "/w", "/w/r/../q", "/", "../w/r", ""} // "": the zero value, the current directory
 
 // VerifC17Resolve: for every import path of N bytes over the alphabet and every root form, Resolve either
 // fails or opens a file that lies lexically inside the root.
@@ -129,6 +129,11 @@ func c17NativeResolve(root, p string) {
 		root = filepath.Join(tmp, "x") + root
 	}
 	os.Chdir(base)
+	if root == "" && len(p) > 0 && p[0] == '/' {
+		// filepath.Join drops the empty root: the import path stays absolute; it is moved into the sandbox directory
+		// like the absolute roots are
+		p = filepath.Join(tmp, "x") + p
+	}
 	target := c17Norm(base, root+"/"+p)
 	if len(root) > 0 && root[0] == '/' {
 		target = c17Norm(base, root+"/"+p)
